@@ -294,6 +294,7 @@ def validate_trace(info, max_rounds=6):
             e = json.loads(cur[i])
             if e.get("a") == "Obs":
                 e["nolen"] = True
+                e.pop("sr", None)      # the specification no longer follows this run: no state to relate to
                 keep.append(json.dumps(e))
         return keep + (cur[nxt:] if nxt is not None else [])
 
@@ -744,6 +745,8 @@ def owners_plain(mm):
         return {"C01"}
     if kind == "ret":
         o = {RET_OWNER.get(act, "C01")}
+        if act == "Find" and mm["e"].get("kind") == "find":
+            o.add("C11")          # view_at on a view equals find (C11 fixes prefix(), value() and the sides)
         if act in MUT_TRAVERSALS:
             o.add("C13")
         return o
